@@ -332,6 +332,18 @@ CASE_TYPE = '(bool * list dtoken * list (string * bool) * list op)'
 
 
 # ------------------------------------------------------------------------------------------------ generation
+def straddling(t):
+    """needles that occur in the concatenated text of t but cross the boundary between two of its text blocks"""
+    texts = [b for b in t.blocks if not is_tag(b) and b]
+    out = []
+    for i in range(len(texts) - 1):
+        a, b = texts[i], texts[i + 1]
+        for n in (a[-1:] + b[:1], a + b[:1], a[-1:] + b, a + b):
+            if n and n not in out and not any(n in x for x in texts):
+                out.append(n)
+    return out
+
+
 def gen_history(rng, case_base, nops, with_inner_html=False):
     """random history respecting the precondition: an element passed to append/insert is currently a detached root
     and does not contain the target.  Runs against the real library to know the evolving shape."""
@@ -406,7 +418,9 @@ def gen_history(rng, case_base, nops, with_inner_html=False):
             pool = [['T', x] for x in TEXTS] + [['E', w.rk(c)] for c in t.children]
             op = [k, ti, [rng.choice(pool) for _ in range(rng.randint(0, 3))]]
         elif k in ('removeText', 'removeTextAll'):
-            op = [k, ti, rng.choice(TEXTS + ['y', 'xx'])]
+            cands = TEXTS + ['y', 'xx']
+            strad = straddling(t)
+            op = [k, ti, rng.choice(strad) if strad and rng.random() < 0.4 else rng.choice(cands)]
         elif k == 'remove':
             op = [k, ti]
         elif k == 'appendInnerHTML':
